@@ -173,7 +173,7 @@ Init ==
         /\ case = Mk(IF sec = "nosec" THEN Absent ELSE L(<< <<"A">> >>), <<>>, IF sec = "pass" THEN {"A"} ELSE {},
                      cfg, body, mu, xb, xq, FALSE)
    \* requiredness focus: a (required) parameter, with or without a default, present / ill-typed / absent ("-")
-   \/ \E k1 \in [p : Kinds \cup {"reqint", "reqintd"}, o : Kinds \cup {"reqint", "reqintd"}, t : {"1", "x", "-"}],
+   \/ \E k1 \in [p : Kinds \cup {"reqint", "reqintd", "cint"}, o : Kinds \cup {"reqint", "reqintd", "cint"}, t : {"1", "x", "-"}],
          k2 \in {Inactive, [p |-> "none", o |-> "int", t |-> "1"]}, mu \in BOOLEAN, xq \in BOOLEAN :
         /\ ~(k1.p = "none" /\ k1.o = "none")
         /\ case = Mk(Absent, <<>>, {}, <<k1, k2, Inactive>>, "none", mu, FALSE, xq, FALSE)
